@@ -113,7 +113,9 @@ def apply_fault(data, f):
     if k == "addfield":
         # add a delta to a 4-byte big-endian field (used to compensate offsets)
         at = f["at"]
-        if at + 4 > n:
+        if at + 4 > n or at < 0:
+            return data
+        if f.get("nonzero_only") and data[at : at + 4] == b"\x00\x00\x00\x00":
             return data
         v = (int.from_bytes(data[at : at + 4], "big") + f["delta"]) & 0xFFFFFFFF
         return data[:at] + v.to_bytes(4, "big") + data[at + 4 :]
@@ -302,7 +304,8 @@ def interesting_value(rng, f):
 
 
 BYTE_KINDS = ["flip", "set", "burst", "zero", "trunc", "del", "dup", "ins", "swap", "append"]
-FIELD_KINDS = ["f_coeff_huge", "f_frag_alias", "f_fixed", "f_uint", "f_bool", "f_coeff", "f_offsets", "f_picnum", "f_trunc_unit", "f_unit_drop", "f_unit_dup", "f_lenbyte", "f_ld_resize"]
+CUT_VALUES = [0, 1, 2, 3, 6, 7, 8, 15, 16, 31, 63, 127, 128, 255, 256, 511, 1023, 65535]
+FIELD_KINDS = ["f_frag_len", "f_block_cut", "f_coeff_huge", "f_frag_alias", "f_fixed", "f_uint", "f_bool", "f_coeff", "f_offsets", "f_picnum", "f_trunc_unit", "f_unit_drop", "f_unit_dup", "f_lenbyte", "f_ld_resize"]
 ALL_KINDS = BYTE_KINDS + FIELD_KINDS
 
 
@@ -418,6 +421,90 @@ def gen_fault(rng, fmap, kind, data_len):
         span = rng.choice([1, 1, 2, 8, 24])
         bit = f.start + rng.randrange(span)
         return {"k": "flip", "bit": bit, "field": f.name}, bit // 8
+    if kind == "f_frag_len":
+        # fragment_data_length is carried by every fragment but no rule ties it
+        # to the data: any value stays conformant.  Optionally the fragment also
+        # omits its next_parse_offset (0 is allowed on picture fragments), so a
+        # parser cannot find the next unit from the header alone.
+        fs = [f for f in fmap.by_kind.get("fixed", []) if f.name == "fragment_data_length"]
+        if not fs:
+            return None
+        f = rng.choice(fs)
+        u = fmap.units[f.unit]
+        true_len = max(0, u["end"] - (f.end // 8) - 6)
+        val = rng.choice([0, 1, 2, max(0, f.value - 1), f.value + 1, f.value // 2, true_len, max(0, true_len - 1), true_len // 2, 0xFFFF, rng.randrange(0, 64)])
+        ops = [{"k": "setbits", "bit": f.start, "n": f.end - f.start, "val": val & 0xFFFF, "field": "fragment_data_length"}]
+        if rng.random() < 0.5:
+            ops.append({"k": "setbits", "bit": (u["start"] + 5) * 8, "n": 32, "val": 0, "field": "next_parse_offset"})
+        return {"k": "seq", "ops": ops}, f.start // 8
+    if kind == "f_block_cut":
+        # make a chosen coefficient code straddle (or end exactly at) the end of
+        # its length-delimited block at a chosen cut position: the block is
+        # re-sized so that it ends ``c`` bits into the code (the "dangling
+        # value" / unused-bits corner of bounded blocks), the stream stays framed
+        fs = fmap.by_kind.get("coeff")
+        if not fs:
+            return None
+        f = rng.choice(fs)
+        if not (0 <= f.unit < len(fmap.units)):
+            return None
+        u = fmap.units[f.unit]
+        blk = None
+        scaler = 1
+        for g in fmap.fields:
+            if g.start >= f.start:
+                break
+            if g.name == "slice_size_scaler":
+                scaler = g.value
+            if g.unit == f.unit and g.name in ("slice_y_length", "slice_c1_length", "slice_c2_length"):
+                blk = g
+        if blk is None:
+            return None
+        hq = u["code"] in (0xE8, 0xEC)
+        v = rng.choice(CUT_VALUES) if rng.random() < 0.85 else huge_value(rng)
+        code = exp_golomb(v) + (rng.choice("01") if v else "")
+        if hq:
+            unit = 8 * max(1, scaler)
+            old_end = blk.end + blk.value * unit
+            if not (blk.end <= f.start < old_end) or old_end > n * 8:
+                return None
+            later = sum(1 for g in fs if g.unit == f.unit and f.end <= g.start < old_end)
+            cands = [
+                (j, c)
+                for j in range(0, min(later, unit - 1) + 1)
+                for c in range(1, len(code) + 1)
+                if (f.start + j + c - blk.end) % unit == 0 and f.start + j + c <= old_end
+            ]
+            if not cands:
+                return None
+            j, c = rng.choice(cands)
+            new_end = f.start + j + c
+            bits = "1" * j + code[:c]
+            ops = [
+                {"k": "setbits", "bit": f.start, "n": len(bits), "val": int(bits, 2), "field": f.name},
+                {"k": "setbits", "bit": blk.start, "n": 8, "val": (new_end - blk.end) // unit, "field": blk.name},
+            ]
+            cut = (old_end - new_end) // 8
+            if cut:
+                ops.append({"k": "del", "at": new_end // 8, "n": cut})
+                ops.append({"k": "addfield", "at": u["start"] + 5, "delta": -cut, "nonzero_only": True})
+                if u["end"] + 13 <= fmap.nbytes:
+                    ops.append({"k": "addfield", "at": u["end"] + 9 - cut, "delta": -cut, "nonzero_only": True})
+            return {"k": "seq", "ops": ops, "value": v if v < (1 << 20) else "huge", "cut": c, "code_bits": len(code)}, f.start // 8
+        # low delay: slice_y_length counts bits; the chroma block follows directly
+        width = blk.end - blk.start
+        old_end = blk.end + blk.value
+        if not (blk.end <= f.start < old_end) or f.start + len(code) > old_end or old_end > n * 8:
+            return None
+        c = rng.randrange(1, len(code) + 1)
+        new_len = f.start + c - blk.end
+        if new_len >= (1 << width):
+            return None
+        ops = [
+            {"k": "setbits", "bit": f.start, "n": len(code), "val": int(code, 2), "field": f.name},
+            {"k": "setbits", "bit": blk.start, "n": width, "val": new_len, "field": blk.name},
+        ]
+        return {"k": "seq", "ops": ops, "value": v if v < (1 << 20) else "huge", "cut": c, "code_bits": len(code)}, f.start // 8
     if kind == "f_coeff_huge":
         # re-code one coefficient of a length-delimited (bounded) block of slice
         # data as a value needing 17..80 data bits and fill the rest of the block
